@@ -24,6 +24,12 @@ def run_case(case, infos, devs):
     f = case["fault"]
 
     def body(s):
+        other = stop_other = None
+        if case.get("other_api"):
+            # a healthy, initialised YncaApi object for another receiver lives in the same process
+            rx2, _ = AS.synthetic_receiver(random.Random(case["seed"] + 1), [x for x in infos if x[1] in ("SYS", "MAIN", "TUN")])
+            other, stop_other = s.start_decoy_api(rx2)
+            s.other_before = sorted(cid for cid, o in AS.accessor_ids(other).items() if o is not None)
         api = s.make_api()
         if f["kind"] == "silent_after":
             s.dev.silent_after_replies = f["k"]
@@ -43,8 +49,13 @@ def run_case(case, infos, devs):
         s.acc = AS.accessor_ids(api)
         s.conn_after = api._connection
         s.sleep(5.0)
+        if other is not None:
+            s.other_after = sorted(cid for cid, o in AS.accessor_ids(other).items() if o is not None)
+            s.other_connected = bool(other._connection and other._connection.connected)
         if s.exc is None:
             api.close()
+        if stop_other:
+            stop_other()
 
     s.run(body)
     return s, rx
@@ -90,6 +101,8 @@ def monitor(s, case, infos):
         if n_sync_replies < n_sync_queries:
             return "initialize() returned normally although a synchronisation reply never arrived (a step failed)"
         return None
+    if getattr(s, "other_before", None) is not None and (s.other_after != s.other_before or not s.other_connected):
+        return f"after the failed initialize() another, healthy YncaApi object of the process is damaged: accessors {s.other_before} -> {s.other_after}, connected={s.other_connected}"
     if not isinstance(s.exc, ynca.YncaException):
         return f"initialize() raised {type(s.exc).__name__}: {s.exc}, which is not one of the library's exceptions"
     dur = s.t_end - s.t_start
@@ -162,6 +175,11 @@ def run(chk: Check):
         for k in range(0, n_writes + 1, 2 if chk.tier == "quick" else 1):
             cases.append({**base, "fault": {"kind": "write_error", "k": k}, "seed": rng.randrange(1 << 30), "switch_prob": rng.choice([0.05, 0.3])})
         cases.append({**base, "fault": {"kind": "open"}})
+        cases.append({**base, "fault": {"kind": "open"}, "other_api": True})
+        cases.append({**base, "fault": {"kind": "silent_after", "k": 0}, "other_api": True})
+    for i, c in enumerate(cases):
+        if i % 29 == 7:
+            c["other_api"] = True
     sessions = []
     for c in cases:
         s, rx = run_case(c, infos, devs)
